@@ -49,7 +49,7 @@ func checkC09(e *Env) {
 			return int64(i % ref.NLang)
 		}
 		// NewMnemonicByEntropy: nil and every length 0..max
-		maxLen := e.pick(1024, 8192)
+		maxLen := e.pick(2048, 8192)
 		emit(&Item{Op: plan.Op{Fn: "enc", ENil: true, L: 2}, Exp: c09exp{fn: "enc", length: -1, lang: 2}})
 		for l := 0; l <= maxLen; l++ {
 			reps := 1
@@ -64,7 +64,10 @@ func checkC09(e *Env) {
 				emit(&Item{Op: plan.Op{Fn: "enc", E: hx(r.Bytes(l)), L: lg}, Exp: c09exp{fn: "enc", length: l, lang: lg}})
 			}
 		}
-		big := []int{1 << 14, 1<<16 - 4, 1 << 16, 1<<16 + 16, 1 << 20}
+		big := []int{1 << 14, 1<<16 - 4, 1 << 16, 1<<16 + 16, 1<<16 + 20, 1<<16 + 24, 1<<16 + 28, 1<<16 + 32, 1<<16 + 36, 2<<16 + 16, 1<<16 + 256 + 32, 1<<20 + 16, 1<<20 + 32, 1 << 20}
+		for k := 4; k < 64; k++ { // lengths congruent to valid ones modulo 2^8
+			big = append(big, k<<8+16, k<<8+20, k<<8+24, k<<8+28, k<<8+32)
+		}
 		if e.Thorough() {
 			big = append(big, 1<<22, 1<<24, 1<<24+32, 1<<24+20)
 			for k := 0; k < 200; k++ {
@@ -76,7 +79,7 @@ func checkC09(e *Env) {
 		}
 		// NewMnemonic: every int in a window plus the extremes, three kinds of source
 		var counts []int64
-		w := int64(e.pick(300, 5000))
+		w := int64(e.pick(1500, 20000))
 		for n := -w; n <= w; n++ {
 			counts = append(counts, n)
 		}
@@ -88,6 +91,12 @@ func checkC09(e *Env) {
 				}
 				counts = append(counts, n)
 			}
+		}
+		for b := uint(6); b <= 62; b++ { // log-uniform counts and counts congruent to valid ones modulo 2^b
+			for _, c := range []int64{12, 15, 18, 21, 24} {
+				counts = append(counts, int64(1)<<b+c, -(int64(1)<<b)+c, int64(3)<<b+c)
+			}
+			counts = append(counts, int64(1)<<b|int64(r.Uint64()&(1<<b-1)), -(int64(1)<<b | int64(r.Uint64()&(1<<b-1))))
 		}
 		for _, c := range []int64{12, 15, 18, 21, 24, -12, -24} {
 			counts = append(counts, 1<<32+c, 1<<33+c, -(1<<32)+c, 1<<16+c, 1<<8+c)
@@ -201,7 +210,7 @@ func checkC09(e *Env) {
 	e.WriteEvidence("exploration", map[string]any{
 		"evaluations":              stats.Ops,
 		"distinct_nontrivial":      dist.Len(),
-		"rule":                     "cases: NewMnemonicByEntropy with nil and every slice length 0..1024 (thorough 0..8192 plus sizes up to 16 MiB) over supported and unsupported languages; NewMnemonic with every int in [-300,300] (thorough [-5000,5000]), windows of +-30 around MinInt64, MinInt32, +-2^31, MaxInt32, 2^32, 2^62, MaxInt64, and values congruent to valid counts modulo 2^8/2^16/2^32 (truncation mutants), each with a working scripted source, a failing scripted source and the default source (observed through the crypto/rand interposer); non-trivial = every case (the required outcome is fully determined); distinct by (function, size or count, language, source)",
+		"rule":                     "cases: NewMnemonicByEntropy with nil and every slice length 0..2048 (thorough 0..8192), lengths congruent to valid ones modulo 2^8 and 2^16, and sizes up to 1 MiB (thorough 16 MiB) over supported and unsupported languages; NewMnemonic with every int in [-1500,1500] (thorough [-20000,20000]), windows of +-30 around MinInt64, MinInt32, +-2^31, MaxInt32, 2^32, 2^62, MaxInt64, and values congruent to valid counts modulo 2^8/2^16/2^32 (truncation mutants), each with a working scripted source, a failing scripted source and the default source (observed through the crypto/rand interposer); non-trivial = every case (the required outcome is fully determined); distinct by (function, size or count, language, source)",
 		"samples":                  smp.List(),
 		"entropy_lengths_tried":    len(lensTried),
 		"accepted_entropy_lengths": al,
